@@ -7,7 +7,7 @@
    The model describes the code WITH repo_patches/C10-fix.patch. *)
 From Coq Require Import ZArith NArith List Bool Sorted Lia.
 Import ListNotations.
-From Verif Require Import Lib.Corr Lib.Storegw_Str Gen.C10 Model.C10 Proofs.C10 Proofs.C10_merge Proofs.C10_select Proofs.C10_part.
+From Verif Require Import Lib.Corr Lib.Storegw_Str Gen.C10 Model.C10 Proofs.C10 Proofs.C10_merge Proofs.C10_select Proofs.C10_part Proofs.C10_lazy.
 Open Scope Z_scope.
 
 (* Time filter: for every series whose chunks are ordered by start time (the TSDB index
@@ -70,6 +70,18 @@ Theorem C10_groups_good : forall idx ms, Forall coherent ms ->
   /\ (forall m, In m (dedup_matchers ms) -> exists g, In g gs /\ g_name g = m_name m).
 Proof. exact groups_good. Qed.
 Print Assumptions C10_groups_good.
+
+(* ... end to end: with ANY set of label names marked lazy (as long as one group with add
+   keys is still fetched, which the heuristic guarantees) the lazily evaluated selection
+   returns exactly the series of the eager selection. *)
+Theorem C10_lazy_select_eq : forall idx ms lazy,
+  ms <> [] -> Forall coherent ms -> consistent ms -> wf_index idx ->
+  (forall gs, matchers_to_groups idx ms = Some gs ->
+     existsb g_all gs && negb (existsb (fun g => negb (is_nil (g_add g))) gs) = false ->
+     exists g, In g gs /\ g_add g <> [] /\ lazy (g_name g) = false) ->
+  select_with idx ms lazy = select idx ms.
+Proof. exact select_with_eq. Qed.
+Print Assumptions C10_lazy_select_eq.
 
 (* Gap-based partitioner (chunk and series range reads): for every list of ranges sorted by
    start and every max gap, the partition terminates within its fuel, the parts' element
@@ -148,9 +160,14 @@ Proof.
 Qed.
 
 Example C10_partition_nonvacuous :
-  partition 4 10 [(0, 5); (3, 4); (14, 20); (40, 41)]%Z 0%nat = Some [(0, 20, 0, 3)%nat; (40, 41, 3, 4)%nat]%Z
-  /\ StronglySorted by_start [(0, 5); (3, 4); (14, 20); (40, 41)]%Z.
+  partition 4 10 [(0, 5); (3, 4); (14, 20); (40, 41)] 0%nat = Some [(0, 20, 0%nat, 3%nat); (40, 41, 3%nat, 4%nat)]
+  /\ StronglySorted by_start [(0, 5); (3, 4); (14, 20); (40, 41)].
 Proof.
   split; [vm_compute; reflexivity|].
   repeat (constructor; [|repeat (constructor; [unfold by_start; simpl; lia|]); try constructor]); constructor.
 Qed.
+
+Example C10_lazy_nonvacuous :
+  select_with ex_idx [ex_m1; ex_m3] (fun n => str_eqb n (s_ "b")) = select ex_idx [ex_m1; ex_m3]
+  /\ select_with ex_idx [ex_m1; ex_m3] (fun n => str_eqb n (s_ "b")) = [nth 0 ex_idx ([], [])].
+Proof. split; vm_compute; reflexivity. Qed.
